@@ -41,13 +41,19 @@ fn loco_rating(l: &Locomotive) -> f64 {
     match &l.loco_type {
         PowertrainType::ConventionalLoco(c) => c.fc.pwr_out_max.value.min(c.gen.pwr_out_max.value).min(c.edrv.pwr_out_max.value),
         PowertrainType::BatteryElectricLoco(b) => b.res.pwr_out_max.value.min(b.edrv.pwr_out_max.value),
+        PowertrainType::HybridLoco(h) => h.fc.pwr_out_max.value.min(h.edrv.pwr_out_max.value) * 0.3,
         _ => 1e6,
     }
 }
 
 fn loco_sim_run(ctx: &mut Ctx, rng: &mut Rng) {
     let kind = if rng.chance(0.5) { Kind::Conv } else { Kind::Bel };
-    let mut loco = if rng.chance(0.5) { gp::locomotive(rng, kind) } else if kind == Kind::Conv { Locomotive::default() } else { Locomotive::default_battery_electric_loco() };
+    // all locomotive kinds: a quarter of the runs use the (shipped default) hybrid
+    let hybrid = rng.chance(0.25);
+    let mut loco = if hybrid { Locomotive::default_hybrid_electric_loco() } else if rng.chance(0.5) { gp::locomotive(rng, kind) } else if kind == Kind::Conv { Locomotive::default() } else { Locomotive::default_battery_electric_loco() };
+    if hybrid {
+        ctx.count("obs.hybrid_loco_sims");
+    }
     if let Some(r) = loco.reversible_energy_storage_mut() {
         let mid = (r.min_soc.value + r.max_soc.value) / 2.0;
         r.state.soc = altrios_core::uc::R * mid;
